@@ -24,7 +24,7 @@ MANIFEST = {
             "forwarded to the plain decoder, remainder offset identity, and discharge of every panic site (index/split/add/sub) from "
             "the guard s.get(src_used)==Some(&0) and the DecodeReport contract dst_used <= src_used <= len.",
     "note": "Trusted (external contract table): cobs::decode_in_place_report returns dst_used <= src_used <= s.len(); decode_in_place returns n <= s.len(). cobs' own totality on malformed frames is not analysed.",
-    "technique": "static analysis: canonical per-path summaries + panic-site enumeration with linear-guard and contract discharge",
+    "technique": "static analysis: semantic MIR summaries + error-kind path rule + panic-site enumeration with linear-arithmetic and contract discharge",
 }
 
 CONTRACT_OPERANDS = {
